@@ -279,6 +279,20 @@ def chk_refuse(case, acc, seed):
             pass
         except Exception as e:
             acc.violation(f'fft:tilt-wrong-exception:{what}', case, repr(e))
+        # tilt metadata on some but not all Fields of a segmented wavefront: still a tilted wavefront (w9-C09-1)
+        cfg2 = dict(cfg); cfg2['support'] = 'seg2'
+        for k in (0, -1):
+            w2, _ = make(cfg2, seed)
+            if len(w2.data) < 2:
+                break
+            w2.data[k].tilt.append(lentil.Tilt(x=1e-6, y=-2e-6))
+            try:
+                lentil.propagate_fft(w2, du, oversample=os_)
+                acc.violation(f'fft:tilt-not-refused:partial', dict(case, field=k), 'a segmented wavefront with tilt metadata on one of its Fields only was propagated by the FFT path')
+            except NotImplementedError:
+                acc.cls('refusal:partial-tilt')
+            except Exception as e:
+                acc.violation(f'fft:tilt-wrong-exception:partial', dict(case, field=k), repr(e))
     acc.cls('refusal')
     acc.case(case, outcome='refuse-' + what)
 
